@@ -175,7 +175,7 @@ Proof.
   intros cf st l st' B I S H.
   destruct (send_step _ _ _ _ S H) as [r0 [m [ok [who [Ea [Eg [Ei [Es [Er [Ec Hw]]]]]]]]]].
   destruct who as [w|].
-  - destruct Hw as [Hl [Eh [from [q [cm [again [op [rest [Ew [Ehd [Eo [rest' [Ew' Hr]]]]]]]]]]]]].
+  - destruct Hw as [Hl [Eh [from [q [cm [again [op [rest [Ew [Ehd [Eo [Ecl [rest' [Ew' Hr]]]]]]]]]]]]]].
     assert (Hp : forall s, pipeline st' s = pipeline st s).
     { intros; apply pipeline_same; auto. rewrite Eh; auto. }
     destruct w.
